@@ -223,6 +223,18 @@ class Explorer(object):
             self.depth -= 1
             if is_gen:
                 self._yields.pop()
+            if outer is not None and getattr(self.port, 'name', 'py') == 'js':
+                # a JS closure assigns the variables of the enclosing function themselves (those it does not declare or take as parameters)
+                own = set(params)
+                for n_ in ast.walk(fd):
+                    if isinstance(n_, ast.Assign) and getattr(n_, 'js_declared', False):
+                        for t_ in n_.targets:
+                            own |= {x.id for x in ast.walk(t_) if isinstance(x, ast.Name)}
+                    elif isinstance(n_, ast.For):
+                        own |= {x.id for x in ast.walk(n_.target) if isinstance(x, ast.Name)}
+                for k_, v_ in env.items():
+                    if k_ in outer and k_ not in own and outer[k_] is not v_:
+                        outer[k_] = v_
 
     def tick(self, node):
         self.steps += 1
@@ -452,7 +464,8 @@ class Explorer(object):
                     return x.id in ('Map', 'Set', 'dict', 'set', 'list', 'tuple', 'None', 'True', 'False', 'null', 'undefined', 'ast', 're') or x.id in self.port.module_consts(self.modname) \
                         or isinstance(self.port.func(self.modname, x.id, required=False), ast.FunctionDef)
                 lam_params_ = {a_.arg for l_ in ast.walk(defs_[0].value) if isinstance(l_, ast.Lambda) for a_ in l_.args.args} if len(defs_) == 1 else set()
-                if len(defs_) == 1 and isinstance(defs_[0].value, (ast.Dict, ast.List, ast.Tuple, ast.Set, ast.Call, ast.Constant)) and all(plain_(x) or x.id in lam_params_ or x.id in ('re',) for x in ast.walk(defs_[0].value) if isinstance(x, ast.Name)) \
+                in_lambda_ = {id(x) for l_ in ast.walk(defs_[0].value) if isinstance(l_, ast.Lambda) for x in ast.walk(l_)} if len(defs_) == 1 else set()
+                if len(defs_) == 1 and isinstance(defs_[0].value, (ast.Dict, ast.List, ast.Tuple, ast.Set, ast.Call, ast.Constant)) and all(plain_(x) or id(x) in in_lambda_ or x.id in ('re',) for x in ast.walk(defs_[0].value) if isinstance(x, ast.Name)) \
                         and not any(isinstance(x, ast.Call) and not (isinstance(x.func, ast.Name) and x.func.id in ('Map', 'Set', 'dict', 'set', 'list', 'tuple', 'frozenset')) for x in ast.walk(defs_[0].value)
                                     if not any(x in list(ast.walk(l_)) for l_ in ast.walk(defs_[0].value) if isinstance(l_, ast.Lambda))):
                     return self.expr(defs_[0].value, {})
@@ -481,6 +494,8 @@ class Explorer(object):
                     return base[lo:hi]
                 raise Undecided('slice of {!r}'.format(base), e)
             idx = self.expr(e.slice, env)
+            if getattr(self.port, 'name', 'py') == 'js' and isinstance(idx, str) and idx.isidentifier() and (isinstance(base, Abs) or (isinstance(base, tuple) and len(base) == 2 and base[0] == 'global')):
+                return self.attr(e, base, idx)       # obj["name"] is obj.name
             if getattr(self.port, 'name', 'py') == 'js' and isinstance(base, (list, tuple, str)) and isinstance(idx, str) and idx.isdigit() and (idx == '0' or not idx.startswith('0')):
                 idx = int(idx)       # array[ "3" ] is array[3]
             if isinstance(base, (list, tuple, str)) and isinstance(idx, int):
